@@ -5,6 +5,9 @@ import (
 	"go/ast"
 	"go/token"
 	"go/types"
+	"os"
+	"regexp"
+	"sort"
 	"strings"
 
 	"golang.org/x/tools/go/ssa"
@@ -97,189 +100,119 @@ func c07(r *core.Run) {
 // c03Structure: R7–R9.
 func c03Structure(r *core.Run) {
 	w := r.W
-	// R7 mirror symmetry of mergeResourceInfos: the arm for "only the then branch invalidated" and the arm for "only the
-	// else branch invalidated" are mirror images under then<->else (the else side is optional, so the then arm may add nil
-	// guards on elseReturnInfo). A flag that differs between the two arms treats the same situation differently
-	// depending on which branch it occurs in.
-	if d, p := w.Decl(w.FuncObj("sema", "", "mergeResourceInfos")); d == nil {
-		r.Undecided("R7.mirror", "sema.mergeResourceInfos", "does not resolve")
-	} else {
-		info := p.TypesInfo
-		// roles of parameters and of locals initialised from them
-		role := map[types.Object]string{}
-		var params []*types.Var
-		for _, f := range d.Type.Params.List {
-			for _, nm := range f.Names {
-				if v, ok := info.Defs[nm].(*types.Var); ok {
-					params = append(params, v)
+	// R7 mirror symmetry of mergeResourceInfos: the paths for "only the then branch invalidated" and the paths for "only the
+	// else branch invalidated" are mirror images under then<->else. Decided on the SSA form, independent of how the
+	// function is laid out: every entry-to-return path is summarised as (branch outcomes ⇒ effects on the result), the
+	// operands are swapped (parameters 0<->2, 1<->3) and the two path sets compared. The else side is optional, so paths on
+	// which a *ReturnInfo operand is nil have no mirror and nil tests of it are ignored.
+	if fn := mustFn(r, "R7.mirror", "sema", "", "mergeResourceInfos"); fn != nil && len(fn.Params) == 4 {
+		eventOf := func(in ssa.Instruction) string {
+			switch x := in.(type) {
+			case *ssa.Store:
+				// assignments to the result and to the kind of an invalidation
+				if al, ok := x.Addr.(*ssa.Alloc); ok && strings.Contains(al.Comment, "invalidation") {
+					return "result=" + core.OriginLeavesVia(x.Val)
+				}
+				if fa, ok := x.Addr.(*ssa.FieldAddr); ok {
+					if tn, f := structFieldOf(fa); tn == "ResourceInvalidation" {
+						return "set " + f + "=" + core.OriginLeavesVia(x.Val)
+					}
+				}
+			case *ssa.Return:
+				if len(x.Results) == 1 {
+					return "return " + core.OriginLeavesVia(x.Results[0])
 				}
 			}
+			return ""
 		}
-		if len(params) == 4 {
-			role[params[0]], role[params[1]], role[params[2]], role[params[3]] = "A.info", "A.ret", "B.info", "B.ret"
-		}
-		ast.Inspect(d.Body, func(n ast.Node) bool {
-			as, ok := n.(*ast.AssignStmt)
-			if !ok || len(as.Lhs) != 1 || len(as.Rhs) != 1 {
-				return true
-			}
-			id, ok := as.Lhs[0].(*ast.Ident)
-			if !ok {
-				return true
-			}
-			obj := info.Defs[id]
-			if obj == nil {
-				return true
-			}
-			for _, rv := range core.RootVars(as.Rhs[0], info) {
-				if ro, ok := role[rv]; ok && role[obj] == "" {
-					role[obj] = ro[:2] + "inv"
-				}
-			}
-			return true
-		})
-		// the if-chain: find arms whose condition is `X != nil` for a single role-bearing local
-		arms := map[string]*ast.BlockStmt{}
-		ast.Inspect(d.Body, func(n ast.Node) bool {
-			ifs, ok := n.(*ast.IfStmt)
-			if !ok {
-				return true
-			}
-			be, ok := ifs.Cond.(*ast.BinaryExpr)
-			if !ok || be.Op != token.NEQ {
-				return true
-			}
-			id, ok := be.X.(*ast.Ident)
-			if !ok {
-				return true
-			}
-			if ro := role[info.Uses[id]]; ro == "A.inv" || ro == "B.inv" {
-				if _, dup := arms[ro]; !dup {
-					arms[ro] = ifs.Body
-				}
-			}
-			return true
-		})
-		render := func(b *ast.BlockStmt, self string) string {
-			other := "B"
-			if self == "B" {
-				other = "A"
-			}
-			var sb strings.Builder
-			var walk func(n ast.Node)
-			tok := func(s string) { sb.WriteString(s); sb.WriteString(" ") }
-			walk = func(n ast.Node) {
-				switch x := n.(type) {
-				case nil:
-				case *ast.BlockStmt:
-					tok("{")
-					for _, st := range x.List {
-						walk(st)
-					}
-					tok("}")
-				case *ast.IfStmt:
-					tok("if")
-					walk(x.Cond)
-					walk(x.Body)
-					if x.Else != nil {
-						tok("else")
-						walk(x.Else)
-					}
-				case *ast.AssignStmt:
-					for _, l := range x.Lhs {
-						walk(l)
-					}
-					tok(x.Tok.String())
-					for _, rr := range x.Rhs {
-						walk(rr)
-					}
-					tok(";")
-				case *ast.ExprStmt:
-					walk(x.X)
-					tok(";")
-				case *ast.BinaryExpr:
-					// drop nil guards on the optional side: `O.ret != nil && E` -> E ; `O.ret == nil || E` -> E
-					if (x.Op == token.LAND || x.Op == token.LOR) && isNilTestOf(x.X, info, role, "ret") {
-						walk(x.Y)
-						return
-					}
-					tok("(")
-					walk(x.X)
-					tok(x.Op.String())
-					walk(x.Y)
-					tok(")")
-				case *ast.UnaryExpr:
-					tok(x.Op.String())
-					walk(x.X)
-				case *ast.ParenExpr:
-					walk(x.X)
-				case *ast.SelectorExpr:
-					walk(x.X)
-					tok("." + x.Sel.Name)
-				case *ast.CallExpr:
-					walk(x.Fun)
-					tok("(")
-					for _, a := range x.Args {
-						walk(a)
-						tok(",")
-					}
-					tok(")")
-				case *ast.CompositeLit:
-					tok(types.ExprString(x.Type))
-					tok("{")
-					for _, e := range x.Elts {
-						walk(e)
-						tok(",")
-					}
-					tok("}")
-				case *ast.KeyValueExpr:
-					walk(x.Key)
-					tok(":")
-					walk(x.Value)
-				case *ast.Ident:
-					if ro, ok := role[info.Uses[x]]; ok {
-						side := "self"
-						if ro[:1] == other {
-							side = "other"
-						}
-						tok(side + ro[1:])
-					} else {
-						tok(x.Name)
-					}
-				case *ast.BasicLit:
-					tok(x.Value)
-				default:
-					tok(fmt.Sprintf("%T", n))
-				}
-			}
-			walk(b)
-			return sb.String()
-		}
-		if arms["A.inv"] == nil || arms["B.inv"] == nil {
-			r.Undecided("R7.mirror", "sema.mergeResourceInfos", "the single-branch arms do not resolve")
+		paths, complete := core.PathSummaries(fn, 512, eventOf)
+		if !complete || len(paths) == 0 {
+			r.Undecided("R7.mirror", "sema.mergeResourceInfos", "paths cannot be enumerated")
 		} else {
-			a, b := render(arms["A.inv"], "A"), render(arms["B.inv"], "B")
-			why := ""
-			if a != b {
-				ta, tb := strings.Fields(a), strings.Fields(b)
-				i := 0
-				for i < len(ta) && i < len(tb) && ta[i] == tb[i] {
-					i++
-				}
-				lo, hiA, hiB := i-4, i+6, i+6
-				if lo < 0 {
-					lo = 0
-				}
-				if hiA > len(ta) {
-					hiA = len(ta)
-				}
-				if hiB > len(tb) {
-					hiB = len(tb)
-				}
-				why = "the arm for an invalidation only in the then branch and the arm for one only in the else branch are not mirror images: then-arm `… " + strings.Join(ta[lo:hiA], " ") + " …` vs else-arm `… " + strings.Join(tb[lo:hiB], " ") + " …`"
+			swap := func(s string) string {
+				rep := strings.NewReplacer("param#0:", "param#§2:", "param#2:", "param#§0:", "param#1:", "param#§3:", "param#3:", "param#§1:")
+				return canonBraces(strings.ReplaceAll(rep.Replace(s), "param#§", "param#"))
 			}
-			r.Check(a == b, "R7.mirror", "sema.mergeResourceInfos: single-branch arms are mirror images", arms["B.inv"].Pos(), "then<->else symmetric (nil guards of the optional else side aside)", why)
+			isInvTest := func(conj string, param string) bool {
+				return strings.Contains(conj, "via:Invalidation") && strings.Contains(conj, param+":") && strings.Contains(conj, "const:nil") && !strings.Contains(conj, "via:IsDefinite")
+			}
+			norm := func(p string, self, other string) (string, bool) {
+				parts := strings.SplitN(p, " ⇒ ", 2)
+				var keep []string
+				selfInv, otherClear := false, false
+				for _, c := range strings.Split(parts[0], " ∧ ") {
+					if c == "" {
+						continue
+					}
+					// nil tests of an (optional) *ReturnInfo operand
+					if strings.Contains(c, "*sema.ReturnInfo}") && strings.Contains(c, "const:nil") && !strings.Contains(c, ".Definitely") {
+						if strings.HasPrefix(c, "+==(") || strings.HasPrefix(c, "-!=(") {
+							return "", false // the optional side is absent on this path
+						}
+						continue
+					}
+					switch {
+					case isInvTest(c, self) && (strings.HasPrefix(c, "+!=(") || strings.HasPrefix(c, "-==(")):
+						selfInv = true
+						continue
+					case isInvTest(c, other) && (strings.HasPrefix(c, "-!=(") || strings.HasPrefix(c, "+==(")):
+						otherClear = true
+						continue
+					case isInvTest(c, self) || isInvTest(c, other):
+						return "", false
+					}
+					keep = append(keep, c)
+				}
+				if !selfInv || !otherClear {
+					return "", false
+				}
+				sort.Strings(keep)
+				return strings.Join(keep, " ∧ ") + " ⇒ " + parts[1], true
+			}
+			armA, armB := map[string]bool{}, map[string]bool{}
+			for _, p := range paths {
+				if n, ok := norm(p, "param#0", "param#2"); ok {
+					armA[canonBraces(n)] = true
+				}
+				if n, ok := norm(p, "param#2", "param#0"); ok {
+					armB[swap(n)] = true
+				}
+			}
+			if os.Getenv("CADCHECK_DEV") != "" {
+				for _, k := range paths {
+					fmt.Println("PATH", k)
+				}
+				for k := range armA {
+					fmt.Println("ARM-A", k)
+				}
+				for k := range armB {
+					fmt.Println("ARM-B", k)
+				}
+			}
+			var diff []string
+			for k := range armA {
+				if !armB[k] {
+					diff = append(diff, "only when the then branch invalidated: "+k)
+				}
+			}
+			for k := range armB {
+				if !armA[k] {
+					diff = append(diff, "only when the else branch invalidated (mirrored): "+k)
+				}
+			}
+			sort.Strings(diff)
+			why := ""
+			if len(diff) > 0 {
+				why = "the handling of an invalidation in only the then branch and in only the else branch are not mirror images: " + strings.Join(diff, " || ")
+				if len(why) > 900 {
+					why = why[:900] + "…"
+				}
+			}
+			r.Check(len(armA) > 0 && len(diff) == 0, "R7.mirror", "sema.mergeResourceInfos: single-branch arms are mirror images", fn.Pos(),
+				itoa(len(armA))+" path(s) per arm, then<->else symmetric (paths with an absent else side aside)", why)
 		}
+	} else if fn != nil {
+		r.Undecided("R7.mirror", "sema.mergeResourceInfos", "expected four parameters")
 	}
 	r.Floor("R7.mirror", 1)
 
@@ -434,4 +367,15 @@ func c07Order(r *core.Run) {
 		}
 	}
 	r.Floor("R2.order", 2)
+}
+
+var reBraces = regexp.MustCompile(`\{[^{}]*\}`)
+
+// canonBraces sorts the tokens inside every {...} group (origin leaf sets) so that renamed leaves compare equal.
+func canonBraces(s string) string {
+	return reBraces.ReplaceAllStringFunc(s, func(g string) string {
+		toks := strings.Fields(g[1 : len(g)-1])
+		sort.Strings(toks)
+		return "{" + strings.Join(toks, " ") + "}"
+	})
 }
